@@ -25,7 +25,7 @@ type StageSc struct {
 	Calls   int    `json:"calls"`             // how many times the stage calls the continuation (0..3)
 	Replace bool   `json:"replace,omitempty"` // hands a replaced message / batch item on (marker in the item token)
 	Wrap    bool   `json:"wrap,omitempty"`    // hands a wrapped context on (marker value)
-	Ret     string `json:"ret,omitempty"`     // "" last result | first | fab (fabricated result) | err ((nil, err))
+	Ret     string `json:"ret,omitempty"`     // "" last result | first | fab (fabricated result) | err ((nil, err)) | both (the last response AND an error of its own)
 	Yield   bool   `json:"yield,omitempty"`
 	// CtxDone: the stage hands an already cancelled context on (the remainder of the chain still runs: only the
 	// client transport at the very end looks at the context). Detach: it hands on a context that can no longer be
@@ -59,7 +59,7 @@ type C19Sc struct {
 
 func genStage(g *simrt.Tape) StageSc {
 	st := StageSc{Calls: []int{1, 1, 1, 0, 2, 2, 3}[g.Draw(7)], Replace: g.Draw(3) == 0, Wrap: g.Draw(3) == 0, Yield: g.Draw(3) == 0}
-	st.Ret = []string{"", "", "", "first", "fab", "err"}[g.Draw(6)]
+	st.Ret = []string{"", "", "", "first", "fab", "err", "both"}[g.Draw(7)]
 	st.Parallel = st.Calls >= 2 && g.Draw(3) == 0
 	st.OtherOp = st.Replace && g.Draw(2) == 0
 	st.CtxDone = g.Draw(8) == 0
@@ -74,7 +74,13 @@ func genC19(g *simrt.Tape, tier string) any {
 		sc.Stages = append(sc.Stages, genStage(g))
 	}
 	// the library's own middlewares, mixed into the chain
-	if sc.Driver != "server-item" {
+	anyBoth := false
+	for _, st := range sc.Stages {
+		anyBoth = anyBoth || st.Ret == "both"
+	}
+	// (the server's stock DebugMiddleware is a stage with a behaviour of its own when its successor returns a response
+	// together with an error: it keeps only the error. It is therefore not mixed into chains with such stages.)
+	if sc.Driver != "server-item" && !(sc.Driver == "server-msg" && anyBoth) {
 		for k, m := 0, g.Draw(3); k < m; k++ {
 			st := StageSc{Stock: []string{"timeout", "timeout", "correlation", "debug", "timeout0"}[g.Draw(5)]}
 			if sc.Driver == "server-msg" {
@@ -129,7 +135,7 @@ func decodeC19(raw json.RawMessage) (any, error) {
 // the 9-behaviour alphabet of the floor
 var c19Alphabet = []StageSc{
 	{Calls: 1}, {Calls: 0, Ret: "fab"}, {Calls: 0, Ret: "err"}, {Calls: 2}, {Calls: 3, Ret: "first"}, {Calls: 2, Parallel: true},
-	{Calls: 1, Replace: true}, {Calls: 1, Wrap: true}, {Calls: 2, Replace: true, Wrap: true}, {Calls: 1, Ret: "err"}, {Calls: 1, CtxDone: true}, {Calls: 1, Detach: true}, {Calls: 2, Replace: true, OtherOp: true},
+	{Calls: 1, Replace: true}, {Calls: 1, Wrap: true}, {Calls: 2, Replace: true, Wrap: true}, {Calls: 1, Ret: "err"}, {Calls: 1, CtxDone: true}, {Calls: 1, Detach: true}, {Calls: 2, Replace: true, OtherOp: true}, {Calls: 1, Ret: "both"},
 }
 
 func c19Floor(tier string) []*C19Sc {
@@ -220,6 +226,13 @@ func (m *chainModel) run(i int, ctxMark, msgMark string) (string, bool) {
 	switch {
 	case st.Ret == "err":
 		return fmt.Sprintf("err%d", i), true
+	case st.Ret == "both" && st.Calls > 0:
+		// the response of the last call together with an error of the stage's own
+		last, lastErr := results[len(results)-1], errs[len(errs)-1]
+		if rp := respPart(last, lastErr); rp != "" {
+			return rp + "+" + fmt.Sprintf("both%d", i), true
+		}
+		return fmt.Sprintf("both%d", i), true
 	case st.Ret == "fab" || st.Calls == 0:
 		return fmt.Sprintf("fab%d", i), false
 	case st.Ret == "first":
@@ -227,6 +240,35 @@ func (m *chainModel) run(i int, ctxMark, msgMark string) (string, bool) {
 	default:
 		return results[len(results)-1], errs[len(errs)-1]
 	}
+}
+
+// A result is named "<response>" (no error), "<error>" (error only) or "<response>+<error>" (both).
+func respPart(id string, isErr bool) string {
+	if !isErr {
+		return id
+	}
+	if k := strings.IndexByte(id, '+'); k >= 0 {
+		return id[:k]
+	}
+	return ""
+}
+
+func errPart(id string) string {
+	if k := strings.IndexByte(id, '+'); k >= 0 {
+		return id[k+1:]
+	}
+	return id
+}
+
+// pairIdentity names what a continuation handed back.
+func pairIdentity(respID string, hasResp bool, err error) string {
+	switch {
+	case err == nil:
+		return respID
+	case hasResp:
+		return respID + "+" + err.Error()
+	}
+	return err.Error()
 }
 
 // ---- the real chains, instrumented stage programs
@@ -339,6 +381,10 @@ func itemIdentity(bi *kmip.ResponseBatchItem) string {
 	if strings.HasPrefix(bi.ResultMessage, "fab") {
 		return bi.ResultMessage
 	}
+	if bi.ResultStatus != kmip.ResultStatusSuccess {
+		// (a failed item may still carry the payload of the execution it came from: the failure is what counts)
+		return "failed:" + bi.ResultMessage
+	}
 	if p, ok := bi.ResponsePayload.(*payloads.ActivateResponsePayload); ok {
 		_, mm := markerOfToken(p.UniqueIdentifier)
 		return "core:" + mm
@@ -346,9 +392,6 @@ func itemIdentity(bi *kmip.ResponseBatchItem) string {
 	if p, ok := bi.ResponsePayload.(*payloads.RevokeResponsePayload); ok {
 		_, mm := markerOfToken(p.UniqueIdentifier)
 		return "core:" + mm
-	}
-	if bi.ResultStatus != kmip.ResultStatusSuccess {
-		return "failed:" + bi.ResultMessage
 	}
 	return "other"
 }
@@ -380,10 +423,7 @@ func (cr *chainRun) msgStage(i int) func(next func(context.Context, *kmip.Reques
 			}
 			call := func(k int) {
 				r, err := next(c, m)
-				id := respIdentity(r)
-				if err != nil {
-					id = err.Error()
-				}
+				id := pairIdentity(respIdentity(r), r != nil, err)
 				cr.rec(req, fmt.Sprintf("s%d got %s err=%v", i, id, err != nil))
 				results[k], errs[k] = r, err
 			}
@@ -401,6 +441,8 @@ func (cr *chainRun) msgStage(i int) func(next func(context.Context, *kmip.Reques
 		switch {
 		case st.Ret == "err":
 			return nil, fmt.Errorf("err%d", i)
+		case st.Ret == "both" && st.Calls > 0:
+			return results[len(results)-1], fmt.Errorf("both%d", i)
 		case st.Ret == "fab" || st.Calls == 0:
 			return fabResponse(i, msg.Header.ProtocolVersion), nil
 		case st.Ret == "first":
@@ -483,10 +525,7 @@ func (cr *chainRun) itemStage(i int) kmipserver.BatchItemMiddleware {
 			}
 			call := func(k int) {
 				r, err := next(c, b)
-				id := itemIdentity(r)
-				if err != nil {
-					id = err.Error()
-				}
+				id := pairIdentity(itemIdentity(r), r != nil, err)
 				cr.rec(req, fmt.Sprintf("s%d got %s err=%v", i, id, err != nil))
 				results[k], errs[k] = r, err
 			}
@@ -504,6 +543,8 @@ func (cr *chainRun) itemStage(i int) kmipserver.BatchItemMiddleware {
 		switch {
 		case st.Ret == "err":
 			return nil, fmt.Errorf("err%d", i)
+		case st.Ret == "both" && st.Calls > 0:
+			return results[len(results)-1], fmt.Errorf("both%d", i)
 		case st.Ret == "fab" || st.Calls == 0:
 			return &kmip.ResponseBatchItem{Operation: bi.Operation, UniqueBatchItemID: bi.UniqueBatchItemID, ResultStatus: kmip.ResultStatusSuccess, ResultMessage: fmt.Sprintf("fab%d", i),
 				ResponsePayload: &payloads.ActivateResponsePayload{UniqueIdentifier: "fabricated"}}, nil
@@ -672,7 +713,7 @@ func execC19(x *X, scAny any) {
 				}
 				resp, err := cl.Roundtrip(context.Background(), mkReq(j))
 				if err != nil {
-					finals[reqName(j)] = "error:" + err.Error()
+					finals[reqName(j)] = "error:" + pairIdentity(respIdentity(resp), resp != nil, err)
 				} else {
 					finals[reqName(j)] = respIdentity(resp)
 				}
@@ -767,7 +808,7 @@ func execC19(x *X, scAny any) {
 		case wantErr && sc.Driver == "client":
 			ok = gotFinal == "error:"+wantRes
 		case wantErr:
-			ok = gotFinal == "failed:"+wantRes // the server turns a chain error into a failed item carrying the message
+			ok = gotFinal == "failed:"+errPart(wantRes) // the server turns a chain error into a failed item carrying the message
 		default:
 			ok = gotFinal == wantRes
 		}
